@@ -105,6 +105,7 @@ func parseDump(src []byte, keepFmt bool) (string, []dyntpl.VerifNode, Obs) {
 		dyntpl.RegisterTplKey(key, tree)
 		return nil, nil
 	})
+	pmObserve(src, keepFmt, o, dump)
 	return key, dump, o
 }
 
@@ -707,6 +708,7 @@ func runInterp(o *Options, prop string, prof *Profile, quickN, thoroughN int, co
 		res.InfraError = err.Error()
 		return res
 	}
+	parserModelBroken(res)
 	for _, ic := range cases {
 		vc := ic.vc
 		for ri, r := range vc.Runs {
